@@ -36,6 +36,13 @@ static int b32_lt(const unsigned char *b, const unsigned char *c) {
 #define MAXP 6000
 #define MAXM 10000
 #define MAXE 100000
+/* MAXMAN < 64 gives a BOUNDED stand-in (quick tier): value - min_value < 2^MAXMAN and min_bits <= MAXMAN, so that
+ * at most (MAXMAN+1)/2 rings are signed; the unbounded units (thorough tier) are the same harness with MAXMAN = 64. */
+#ifndef MAXMAN
+#define MAXMAN 64
+#endif
+#define BOUND_MANTISSA(value, min_value, min_bits) __CPROVER_assume(MAXMAN >= 64 || (min_bits <= MAXMAN && (min_value > value || (value - min_value) >> MAXMAN == 0)))
+#define MAXRINGS_B ((MAXMAN + 1) / 2)
 
 static void sg_reset(size_t gk, size_t gb) {
     g_sq_n = 0; g_sq_hit = 0; g_sq_watch = 0; g_pd_n = 0; g_pd_hit = 0; g_pd_watch = (int)gk; g_pe_n = 0; g_bs_n = 0; g_gr_n = 0; g_gb_n = 0; g_sg_n = 0; g_sg_hit = 0; g_sg_watch = -1;
@@ -54,6 +61,7 @@ void h_sign_gates(void) {
     unsigned char *proof, *msg, *extra; size_t plen; secp256k1_context ctx; int ret; size_t npub_s, rings_s, total;
     __CPROVER_assume(plen_in <= MAXP && msg_len <= MAXM && eclen <= MAXE && gk < 128 && gb < 32);
     __CPROVER_assume(ge_ok(&commit) && !commit.infinity && ge_ok(&genp) && !genp.infinity);
+    BOUND_MANTISSA(value, min_value, min_bits);
     INPUT_BUF(pf, proof, plen_in, 16);
     INPUT_BUF(mg, msg, msg_len, 8);
     INPUT_BUF(ex, extra, eclen, 8);
@@ -89,9 +97,9 @@ void h_sign_gates(void) {
         __CPROVER_assert(g_bs_e0 == proof + total - 32, "C09 sign gates: e0 written right after the digit commitments");
     }
     __CPROVER_assert(g_illegal == 0 && g_error == 0, "C09 sign gates: no callback");
-    if (ret == 1 && plen == 5134) REACH("sign succeeds with the largest proof");
+    if (ret == 1 && plen == 10 + 32 * (2 * MAXMAN + MAXRINGS_B - 1) + 32 + (MAXRINGS_B + 6) / 8) REACH("sign succeeds with the largest proof");
     if (ret == 1 && plen == 65) REACH("sign succeeds with the smallest proof");
-    if (ret == 1 && use_msg && msg_len == 3968) REACH("sign succeeds with a 3968-byte message");
+    if (ret == 1 && use_msg && msg_len == 128 * (MAXRINGS_B - 1)) REACH("sign succeeds with the longest message");
     if (ret == 0 && g_bs_n == 1) REACH("sign fails in the ring signature");
     if (ret == 0 && g_gr_n == 1 && !b32_lt(blind, RP_N)) REACH("sign refuses blind >= n after seeding");
 }
@@ -106,6 +114,7 @@ void h_sign_header(void) {
     unsigned char *proof, hb[16]; size_t plen, off = 0, j; secp256k1_context ctx; int ret, hret, hexp, hman; uint64_t hscale, hmin, hmax;
     __CPROVER_assume(plen_in <= MAXP && gk < 32 && plen2 <= MAXP);
     __CPROVER_assume(ge_ok(&commit) && !commit.infinity && ge_ok(&genp) && !genp.infinity);
+    BOUND_MANTISSA(value, min_value, min_bits);
     INPUT_BUF(pf, proof, plen_in, 16);
     verif_ctx_init(&ctx); ctx.hash_ctx.fn_sha256_compression = secp256k1_sha256_transform;
     sg_reset(gk, 0);
@@ -130,7 +139,7 @@ void h_sign_header(void) {
         if (ret == 1) {
             __CPROVER_assert(g_pe_exp == (hexp < 0 ? 0 : hexp), "C09 sign header: key expansion uses the header exponent");
             __CPROVER_assert(plen == off + ((v_rings(hman) - 1 + 7) / 8) + 32 * (v_rings(hman) - 1) + 32 + 32 * v_npub(hman), "C09 sign header: proof length is exactly what the verifier expects for this header");
-            if (hman == 64 && hexp == EXPCASE) REACH("sign header: 64-bit mantissa");
+            if (hman == MAXMAN && hexp == EXPCASE) REACH("sign header: largest mantissa");
             if (hmin != 0 && hexp == EXPCASE) REACH("sign header: with public minimum");
         }
 #if EXPCASE == 0
